@@ -188,6 +188,8 @@ macro_rules! m2 {
 m2!(c18_m2_term1_term3_valid, [(false, 1), (false, 3)], [1, 3], 1);
 // claimed depth below the bisection point / beyond the path / huge
 m2!(c18_m2_term1_term3_d0, [(false, 1), (false, 3)], [0, 3], 1);
+// claimed depth one beyond the terminal's own path, with enough siblings, on the far side of a bisection
+m2!(c18_m2_term1_term1_over, [(false, 1), (false, 1)], [2, 1], 1);
 m2!(c18_m2_term2_leaf_deep, [(false, 2), (true, 0)], [2, 257], 1);
 m2!(c18_m2_2leaf_max, [(true, 0), (true, 0)], [usize::MAX, 2], 2);
 m2!(c18_m2_2leaf_valid, [(true, 0), (true, 0)], [2, 2], 2);
